@@ -96,7 +96,16 @@ def tag_docs(rng, tag, n):
 
 
 def garble(rng, doc):
-    c = rng.choice(['truncate', 'delete', 'entity', 'unclosed', 'swapclose', 'intact'])
+    c = rng.choice(['truncate', 'delete', 'entity', 'unclosed', 'swapclose', 'intact', 'ws-before-decl',
+                    'nbsp-after-root', 'ws-around', 'decl'])
+    if c == 'ws-before-decl':      # an XML declaration that is not at the very start: not well-formed
+        return rng.choice(['\n', '  ', '\t\n ']) + '<?xml version="1.0" encoding="UTF-8"?>\n' + doc
+    if c == 'nbsp-after-root':     # U+00A0 is not XML white space: not well-formed
+        return doc + rng.choice(['\u00a0', '\u2003\n', '\n\u00a0\n'])
+    if c == 'ws-around':           # XML white space around the root element is fine
+        return rng.choice(['\n', ' \n\t']) + doc + rng.choice(['\n', '\n\n  '])
+    if c == 'decl':
+        return '<?xml version="1.0" encoding="UTF-8"?>' + doc + '\n'
     if c == 'truncate':
         return doc[:rng.randint(0, len(doc) - 1)]
     if c == 'delete':
@@ -142,9 +151,16 @@ def classify_all_ways(s, doc, variant, cfg, tmpdir, in_claim=True):
         p16 = os.path.join(tmpdir, 'd16.mos.xml')
         with open(p16, 'wb') as f:
             f.write(u16)
+        import codecs
+        u16be = codecs.BOM_UTF16_BE + ('<?xml version="1.0" encoding="UTF-16"?>\n' + doc + '\n').encode('utf-16-be')
+        p16be = os.path.join(tmpdir, 'd16be.mos.xml')
+        with open(p16be, 'wb') as f:
+            f.write(u16be)
         ways += [('bytes-latin1', lambda: MosFile.from_string(l1)),
                  ('bytes-utf16', lambda: MosFile.from_string(u16)),
-                 ('file-utf16', lambda: MosFile.from_file(p16))]
+                 ('file-utf16', lambda: MosFile.from_file(p16)),
+                 ('bytes-utf16be-nl', lambda: MosFile.from_string(u16be)),
+                 ('file-utf16be-nl', lambda: MosFile.from_file(p16be))]
     from .. import events as EV
     for filt in ('default', 'error'):
         for wname, fn in ways:
